@@ -12,6 +12,26 @@ use crate::ring::{BAD_SIZES, ElemKind, GOOD_SIZES};
 
 pub struct C18;
 
+/// Page multiples that the kernel may or may not be able to back (file size limit of the
+/// backing file system, address space, `off_t` range of `2*size`): either outcome of
+/// `Buffer::new` is accepted, a panic or anything left behind is not.  `2*size` fits a
+/// `usize` for all of them.
+pub const HUGE_SIZES: &[usize] = &[
+    1 << 31, 1 << 36, 1 << 40, 1 << 44, 1 << 45, 1 << 46, (1 << 46) + 4096, 1 << 47, 1 << 50, 1 << 55, 1 << 61,
+    1 << 62, (1 << 62) + 4096, (1 << 62) + (1 << 40), (1 << 63) - 4096,
+];
+const HUGE: usize = 1 << 30;
+
+fn elem_strategy() -> BoxedStrategy<ElemKind> {
+    prop::sample::select(
+        &[
+            ElemKind::U8, ElemKind::U16, ElemKind::U32, ElemKind::U64, ElemKind::B16, ElemKind::F32, ElemKind::C32,
+            ElemKind::B3, ElemKind::B12, ElemKind::Zst,
+        ][..],
+    )
+    .boxed()
+}
+
 #[derive(Clone, Debug, Serialize, Deserialize, PartialEq)]
 pub enum C18Case {
     /// create/drop history: streams (pages, elem index) are created by the main thread and by
@@ -74,6 +94,8 @@ impl Prop for C18 {
         prop_oneof![
             8 => history_strategy(tier.pick(120, 200) as usize),
             1 => (1u8..5, any::<u16>()).prop_map(|(pages, shift)| C18Case::Alias { pages, shift }),
+            1 => (elem_strategy(), 1usize..16, 12u32..60, prop::sample::select(&[0usize, 0, 0, 1, 2048, 4096][..]))
+                .prop_map(|(elem, m, sh, off)| C18Case::Setup { elem, size: (m << sh) + off }),
         ]
         .boxed()
     }
@@ -86,7 +108,7 @@ impl Prop for C18 {
             ElemKind::U8, ElemKind::U16, ElemKind::U32, ElemKind::U64, ElemKind::B16, ElemKind::F32,
             ElemKind::C32, ElemKind::B3, ElemKind::B12, ElemKind::Zst,
         ] {
-            for &size in GOOD_SIZES.iter().chain(BAD_SIZES.iter()) {
+            for &size in GOOD_SIZES.iter().chain(BAD_SIZES.iter()).chain(HUGE_SIZES.iter()) {
                 v.push(C18Case::Setup { elem, size });
             }
         }
@@ -99,7 +121,7 @@ impl Prop for C18 {
     }
     fn exhaustive_subdomains(&self) -> Vec<String> {
         vec![
-            "set-up table: 10 element kinds (incl. 3- and 12-byte and zero-sized) x 11 sizes (5 page multiples, 6 invalid)".into(),
+            "set-up table: 10 element kinds (incl. 3- and 12-byte and zero-sized) x 26 sizes (5 page multiples, 6 invalid, 15 huge page multiples from 2^31 to 2^63-4096 where the kernel may refuse at ftruncate or mmap)".into(),
             "aliasing: every byte offset of 1-4 page buffers, write positions 0, 1, 2, cap/16, cap/2, cap-1".into(),
         ]
     }
@@ -231,10 +253,12 @@ fn try_new(elem: ElemKind, size: usize) -> Result<Result<(), String>, crate::eng
 }
 
 fn run_setup(elem: ElemKind, size: usize, ctx: &mut Ctx) {
-    ctx.class("setup-table");
+    ctx.class(if size > HUGE { "setup-huge" } else { "setup-table" });
     ctx.nontrivial();
     let esz = elem.size();
     let valid = size != 0 && size % 4096 == 0 && esz != 0 && size % esz == 0;
+    // beyond 1 GiB the kernel decides; refusing is as good as succeeding
+    let must_succeed = valid && size <= HUGE;
     let base = (deleted_mappings(), open_fds());
     let r = try_new(elem, size);
     let after = (deleted_mappings(), open_fds());
@@ -247,7 +271,7 @@ fn run_setup(elem: ElemKind, size: usize, ctx: &mut Ctx) {
             format!("C18/setup/accepted-invalid/{}", if esz == 0 { "zero-sized" } else if size % 4096 != 0 || size == 0 { "non-page-multiple" } else { "nondividing" }),
             format!("Buffer::<{elem:?}>::new({size}) succeeded although the configuration cannot work"),
         ),
-        Ok(Err(e)) if valid => ctx.fail("C18/setup/refused-valid".to_string(), format!("Buffer::<{elem:?}>::new({size}) failed: {e}")),
+        Ok(Err(e)) if must_succeed => ctx.fail("C18/setup/refused-valid".to_string(), format!("Buffer::<{elem:?}>::new({size}) failed: {e}")),
         _ => {}
     }
     if after != base {
